@@ -76,7 +76,11 @@ RangeC(l, r, first, last, c, Dev) ==
 VerifyFullC(w, r, Dev) ==
     IF ~HasEntries(w.log, r) THEN [res |-> "none", c |-> w.cache]
     ELSE IF ~w.cache.on THEN [res |-> Impl(w.log, r, Dev), c |-> w.cache]
-    ELSE LET first == IF w.cache.last[r] # 0 THEN w.cache.last[r] ELSE FirstFor(w.log, r) IN
+    ELSE LET cp == w.cache.last[r]
+             \* an annotation recorded after the checkpoint that names an entry at or before it changes what the entries
+             \* before the checkpoint mean: the checkpoint no longer stands for a verified prefix
+             stale == \E j \in (cp + 1)..Len(w.log) : w.log[j].k = "ann" /\ \E t \in w.log[j].tg : t <= cp
+             first == IF cp # 0 /\ ("CheckpointIgnoresLaterRevocations" \in Dev \/ ~stale) THEN cp ELSE FirstFor(w.log, r) IN
          RangeC(w.log, r, first, LatestFor(w.log, r), w.cache, Dev)
 VerifyLatestC(w, r, Dev) ==
     IF ~HasEntries(w.log, r) THEN [res |-> "none", c |-> w.cache]
